@@ -155,6 +155,8 @@ INCLUDE_NETS = {
     "fail-operand-count-after-label": ({"f3.mac": "L3:: nop\nmov #1\n"}, "f3.mac", "failed"),
     "fail-nested": ({"f4.mac": 'L4: nop\n.include "f1.mac"\n.word L4\n', "f1.mac": "lbl: nop\njsr 5, lbl\n.word lbl\n"}, "f4.mac", "failed"),
     "fail-user-error": ({"f5.mac": "L5: .word L5\n.error stop\nN5:\n"}, "f5.mac", "failed"),
+    "self-twice": ({"st.mac": '.include "st.mac"\n.word 1\n.include "st.mac"\n'}, "st.mac", "failed"),
+    "ping-pong-twice": ({"pa.mac": '.include "pb.mac"\n.include "pb.mac"\n', "pb.mac": '.include "pa.mac"\nnop\n.include "pa.mac"\n'}, "pa.mac", "failed"),
     "self-lazy-path": ({"lz.mac": '.include "lz.ma"<CH>\nCH = 155\n'}, "lz.mac", "failed"),
 }
 
@@ -336,6 +338,9 @@ def obligations(tier, seed):
               ".extern ghost\nX9 = ghost\n.word {V1}\n", ".extern ghost\n.blkb ghost\n.word {V1}\n", ".extern ghost\n.link ghost + {V1}\nnop\n",
               "br ghost\n.extern ghost\n.word {V1}\n"):
         add("extern", t)
+    for t in (".rad50 <{V1}><{V1}><{V1}>\n", ".rad50 \"ABC\"<{V1}><47><47>\n", ".rad50 <{V1}>\n", ".rad50 /AB/<{V1}>/C/<{V2}>\n", ".word ^RAB + {V1}\n",
+              ".ascii <{V1}><{V2}>\n", ".asciz \"a\"<{V1}>\"b\"\n", ".rad50 <code>\ncode = {V1}\n"):
+        add("codes", t, vmax=70)
     add("huge", ".word 1 << 20000.\n")
     add("huge", "X9 = 1 _ \"ab\"\n.byte X9\n")
     for i, c in enumerate(CYCLES):
